@@ -1479,3 +1479,39 @@ def awaited_outcome_arms(b, c):
             if f is not None:
                 (oks if neg else errs).add(f)
     return oks, errs
+
+
+def shutdown_is_a_select_branch(ctx, rule):
+    """both background tasks of the client watch the shutdown channel *while* they wait for their other events: in the
+    select of read_task and of send_task `close_tx.closed()` is one of the branches, and - the selects being `biased` - the
+    first one, so that it is polled on every wake-up. Checked between messages only (`if close_tx.is_closed()`), or polled
+    after a branch that is always ready under load, the task does not notice that the other task has ended: streams do
+    not end with the connection, pending calls do not get the cause."""
+    F, R = ctx.F, ctx.R
+    n = 0
+    for task in ("read_task", "send_task"):
+        sel = []
+        for b in F.find(r"^jsonrpsee_core::client::async_client::%s::\{closure#0\}::\{closure#\d+\}$" % task):
+            for bi, blk in enumerate(b.blocks):
+                t = blk["term"]
+                if t and t["t"] == "switch" and len(t["arms"]) >= 2 and bi in b.reachable:
+                    arms = [(v, tb) for v, tb in t["arms"]]
+                    polled = {}
+                    for v, tb in arms:
+                        polled[v] = [c for c in b.calls if b.dominates(tb, c.bb) and re.search(r"::closed::\{closure#0\}$|::recv::\{closure#0\}$|Future>?::poll$|Stream>?::poll_next$", c.name() or c.callee or "")]
+                    if sum(1 for v in polled if polled[v]) >= 2:
+                        sel.append((b, bi, polled))
+        if len(sel) != 1:
+            R.anchor_lost(rule, "the select of %s (found %d candidates)" % (task, len(sel)))
+            continue
+        b, bi, polled = sel[0]
+        R.fn(b)
+        n += 1
+        where_closed = sorted(v for v, cs in polled.items() if any(re.search(r"mpsc::(bounded::)?Sender::<.*>::closed::\{closure#0\}$", c.name() or "") for c in cs))
+        unbiased = bool(b.calls_to(r"thread_rng_n$"))
+        R.check(bool(where_closed) and (where_closed == ["0"] or unbiased), rule, "%s:shutdown-polled-first" % task,
+                "%s polls the shutdown channel first on every wake-up" % task,
+                ("%s does not wait on the shutdown channel in its select (no `close_tx.closed()` branch): when the other task ends while the peer is silent this task never wakes up, so subscription streams do not end and pending calls never get the cause" % task) if not where_closed else
+                ("in %s's biased select the shutdown branch is polled after other branches (position %s): while an earlier branch is always ready - a busy front end - the stop signal is never seen and the client keeps running after the connection failed" % (task, where_closed)),
+                "%s:%d" % ((F.parent_body(b) or b).file, (F.parent_body(b) or b).lo))
+    R.floor(rule, n, 2, "selects of the client's background tasks")
